@@ -382,7 +382,7 @@ impl Prop for C11 {
             2 => (0u8..4, 0u8..HUB_VARIANTS.len() as u8, 0u8..SENDERS.len() as u8, any::<u32>()).prop_map(|(state, variant, sender, payload)| Case::Blocked { state, variant, sender, payload }),
             2 => (proptest::collection::vec((0u8..4, 0u8..12, (1u128..1_000_000_000u128).prop_map(Uint128::new)), 0..9), proptest::collection::vec(proptest::option::of(0u8..5), 0..4))
                 .prop_map(|(entries, limits)| Case::Legacy { entries, limits }),
-            1 => (prop_oneof![3 => 0u16..60, 1 => 990u16..1010, 1 => 1001u16..2100], proptest::collection::vec(proptest::option::of(prop_oneof![0u16..5, 900u16..1100]), 0..3))
+            1 => (prop_oneof![3 => 0u16..60, 1 => 990u16..1010, 1 => 1001u16..2100], proptest::collection::vec(proptest::option::of(prop_oneof![2 => 0u16..5, 3 => 900u16..1100, 1 => 1100u16..6000, 1 => Just(u16::MAX)]), 0..3))
                 .prop_map(|(n, limits)| Case::LegacyBulk { n, limits }),
             5 => (history_strategy(&p, cfg_strategy()), any::<u8>(), proptest::collection::vec((0u8..HUB_VARIANTS.len() as u8, 0u8..6), 0..5))
                 .prop_map(|(history, at, attempts)| Case::Meta { history, at, attempts }),
@@ -410,6 +410,7 @@ impl Prop for C11 {
         for n in [0u16, 1, 999, 1000, 1001, 1500, 2001] {
             v.push(Case::LegacyBulk { n, limits: vec![] });
             v.push(Case::LegacyBulk { n, limits: vec![Some(1000)] });
+            v.push(Case::LegacyBulk { n, limits: vec![Some(5000)] });
         }
         v
     }
